@@ -127,6 +127,12 @@ def registry (j : Json) : Except String Registry := do
     pure (← val a[0]!, ← sstr a[1]!, ← val a[2]!)
   pure { mods := mods, attrs := attrs }
 
+/-- {"exceptUnbind": b, "augLoad": b, "forIterFirst": b, "annValueFirst": b, "compScope": b}; absent = false -/
+def fixes (j : Json) : Fixes :=
+  let g (k : String) : Bool := match j.getObjValAs? Bool k with | .ok b => b | .error _ => false
+  { exceptUnbind := g "exceptUnbind", augLoad := g "augLoad", forIterFirst := g "forIterFirst",
+    annValueFirst := g "annValueFirst", compScope := g "compScope" }
+
 def valJ : Val → Json
   | .none => Json.null
   | .obj n => natJ n
